@@ -19,7 +19,7 @@ ASSUMPTIONS = [
     'previously computed data is only combined with at least one table input that has no default (data/expiry are themselves outer-joined inputs, so '
     'without such an input their keys would extend the key set - not covered by the statement); expiry rows exist only for keys that have data',
     'past = 2000-01-01 and future = 2900-01-01, so the verdict does not depend on the run date',
-    'if_none, output_is_input and include_inputs keep their defaults; functions with several named outputs (f.output, a dict result) only in the suite named_outputs',
+    'if_none and include_inputs keep their defaults, output_is_input too except in the suite output_is_input; functions with several named outputs (f.output, a dict result) only in the suite named_outputs',
     'a table may carry only SOME of the key columns (suite partial_keys): it is joined on the ones it has, as the library does for every input (`d.keys() & on`)',
 ]
 
@@ -550,7 +550,7 @@ def gen_named():
     for sa in subsets(keys):
         for sb in subsets(keys):
             for order in ('declared', 'reversed', 'extra-first'):
-                for cached in (None, 'past', 'future'):
+                for cached in (None, 'past', 'future', 'partial-past'):
                     yield {'a': list(sa), 'b': list(sb), 'order': order, 'cached': cached}
 
 
@@ -592,8 +592,10 @@ def check_named(case):
     if case['cached'] and surv:
         old = surv[:1] if len(surv) > 1 else surv
         kw = dict(s=dictable(k=old, s=['old s %d' % i for i in old]), p=dictable(k=old, p=['old p %d' % i for i in old]),
-                  expiry=dictable(k=old, expiry=[PAST if case['cached'] == 'past' else FUTURE for _ in old]))
+                  expiry=dictable(k=old, expiry=[PAST if case['cached'] in ('past', 'partial-past') else FUTURE for _ in old]))
         kept = old if case['cached'] == 'past' else []
+        if case['cached'] == 'partial-past':
+            del kw['p']          # only ONE of the two outputs was computed before: no previously computed value of f is supplied, every row is computed
     try:
         res = p(a=ta, b=tb, **kw)
         out.call()
@@ -621,6 +623,60 @@ def check_named(case):
     return out
 
 
+# ------------------------------------------------------------------------------------------------ the earlier result hidden from f (output_is_input)
+
+OII = [True, False, 'data', [], 'something_else', ['data']]
+
+
+def gen_oii():
+    keys = [1, 2, 3]
+    for sd in subsets(keys):
+        if not sd:
+            continue
+        for exp in itertools.product(('past', 'future', 'none'), repeat=len(sd)):
+            for oi in range(len(OII)):
+                yield {'data': list(sd), 'exp': list(exp), 'oii': oi}
+
+
+def check_oii(case):
+    """whether or not the earlier result is also handed to f as an input (output_is_input), a row whose earlier value comes with a past expiry keeps that value and
+    f is not called for it; every other row is computed once"""
+    from pyg_base import perdictable, dictable
+    out = Out()
+    calls = []
+
+    def f(x, y):
+        calls.append((x, y))
+        return 'f(%s,%s)' % (x, y)
+    oii = OII[case['oii']]
+    keys = [1, 2, 3]
+    x = dictable(k=keys[::-1], x=['x%d' % i for i in keys[::-1]])
+    y = dictable(k=keys, y=['y%d' % i for i in keys])
+    sd = case['data']
+    data = dictable(k=sd, data=['old%d' % i for i in sd])
+    expiry = dictable(k=sd, expiry=[{'past': PAST, 'future': FUTURE, 'none': None}[e] for e in case['exp']])
+    kept = [i for i, e in zip(sd, case['exp']) if e == 'past']
+    label = 'output_is_input=%r, earlier data for %s with expiry %s' % (oii, sd, case['exp'])
+    sig = dict(oii=repr(oii), kept=bool(kept))
+    out.sub()
+    try:
+        res = perdictable(f, on='k', output_is_input=oii)(x=x, y=y, data=data, expiry=expiry)
+        out.call()
+        got = list(zip(res['k'], res['data']))
+    except Exception as e:
+        out.viol('perdictable-raised', '%s raised %s: %s' % (label, type(e).__name__, e), exc=type(e).__name__, **sig)
+        return out
+    want = [(i, 'old%d' % i if i in kept else 'f(x%d,y%d)' % (i, i)) for i in keys]
+    if got != want:
+        out.viol('wrong-value' if [g[0] for g in got] == keys else 'wrong-keys', '%s: rows %s, expected %s' % (label, got, want), **sig)
+    if sorted(calls) != sorted(('x%d' % i, 'y%d' % i) for i in keys if i not in kept):
+        out.viol('wrong-call-count', '%s: f evaluated for %s, expected once for each key but %s' % (label, calls, kept), **sig)
+    if kept:
+        out.nontrivial()
+    out.cls('oii-%s-%s' % (type(oii).__name__, 'kept' if kept else 'all-computed'))
+    return out
+
+
 def suites(tier, seed):
     q = tier == 'quick'
     S = []
@@ -645,7 +701,10 @@ def suites(tier, seed):
     S.append(Suite('partial_keys', gen_partial, check_partial,
                    rule='two key columns, a over every subset of {x,y}x{1,2} and b keyed by ONE of the columns over every subset of its values, and the cross join of a '
                         'table per key column; on=[k,j] and [j,k]; through perdictable and join: the natural join, once per key, sorted in the order of on', bounds=dict(keys=4)))
+    S.append(Suite('output_is_input', gen_oii, check_oii,
+                   rule='output_is_input in %r x earlier data over every non-empty subset of 3 keys x expiry per key in past / future / None; two full inputs' % (OII,),
+                   bounds=dict(keys=3)))
     S.append(Suite('named_outputs', gen_named, check_named,
                    rule='a function with output=[s,p] returning its dict in declared / reversed order / behind an extra entry; a, b over every subset of 3 keys; '
-                        'no earlier result / one with a past / a future expiry for the first surviving key', bounds=dict(keys=3, outputs=2)))
+                        'no earlier result / one with a past / a future expiry for the first surviving key / an earlier result for ONE of the two outputs only', bounds=dict(keys=3, outputs=2)))
     return S
